@@ -398,6 +398,10 @@ HOSTILE = [
     "x,y,z", "#", "a #b: c", "key:value", "k:", ":v", "line\r\nbreak", "UPPER lower MiXeD", "keys4", "KEYS7", "0x1F", "0o17", "1_000", ".5", "+1", "1:30", "2001-01-01", "NaN", ".inf", "<<",
 ]
 HOSTILE_TAGS = ["a:b", "#tag", "'q'", '"dq"', "-x", "日本語", "é", "123", "yes", "{x}", "x,y", "no\u00a0break", "wide\u3000space", "\uff5e", "//", "TAG", "tag"]
+# (16) texts that are markers elsewhere in the format (mode names, section / record keys, YAML collections, the -1 / 0 sentinels of the id keys) as ordinary values
+HOSTILE += ["Keys4", "Keys7", "Keys8", "HitObjects", "StartTime: 5", "[]", "{}", "- StartTime: 0", "-1", "0", "EndTime", "Lane: 1"]
+D_TEXTS = ["alpha.mp3", "beta bg.jpg", "gamma banner.png", "Delta Title", "Epsilon Artist", "zeta source", "Eta Creator", "Theta Diff", "iota description", "kappa genre", "lambda", "mu"]
+D_LISTS = dict(EditorLayers=[{"Name": "Layer A", "ColorRgb": "255,0,0"}], CustomAudioSamples=[{"Path": "cas one.wav", "UnaffectedByRate": False}], SoundEffects=[{"StartTime": 500, "Sample": 1, "Volume": 80}])
 BENIGN = ["song", "artist name", "Evening", "Hard", "audio.mp3", "bg.jpg", "banner.png", "some description", "genre"]
 
 FEATURES = [
@@ -411,13 +415,16 @@ FEATURES = [
     "ties", "long_decimals", "half_ms_times", "extra_top_keys", "extra_record_keys_all", "extra_record_keys_some",
     # the ends of the value ranges: times around +-2^31 ms, tempo 0.001 .. 1e6, multipliers +-1000 / 0.0001, 32-bit extremes in the integer keys
     "extreme_values",
+    # (14) every metadata key and every record key present with a non-default, non-empty value that differs from every sibling of its type;
+    # (17) one record of one kind (hit, hold, timing point, SV) strictly before / exactly on the earliest, or after / on the latest record of ALL kinds
+    "all_fields_distinct", "kind_order",
     "mixed",
 ]
 # features that never enter a "mixed" document: a class that fails on the unchanged tree must stay in clauses of its own
 NOT_IN_MIXED = {"extra_top_keys", "extra_record_keys_all", "extra_record_keys_some"}
 # documents in which every key is present: the charts read from them are the "native, read from a document" charts
 SAFE_FOR_NATIVE = {"plain", "lane", "keysounds_nonempty", "empty_hitobjects", "empty_timingpoints", "empty_svs", "all_sections_empty", "hits_only", "holds_only", "meta_hostile", "float_times", "negative_large_times", "flow_records", "key_order",
-                   "single_records", "one_hit_only", "one_hold_only", "many_records", "zero_length_hold", "end_time_zero", "ties", "long_decimals", "half_ms_times", "extreme_values"}
+                   "single_records", "one_hit_only", "one_hold_only", "many_records", "zero_length_hold", "end_time_zero", "ties", "long_decimals", "half_ms_times", "extreme_values", "all_fields_distinct", "kind_order"}
 
 KS_POOL = [[], [], ["a.wav"], ["a.wav", "b c.ogg"], [{"Sample": 1, "Volume": 50}], [{"Sample": 2, "Volume": 100}, {"Sample": 3, "Volume": 0}]]
 
@@ -565,6 +572,10 @@ def gen_spec(rng, feature, lane=None):
         for kv in r:
             if kv[0] == "EndTime":
                 kv[1] = 0
+    distinct = on("all_fields_distinct", 0.12)
+    if distinct:  # every object with key sounds of its own
+        for i, r in enumerate(objs):
+            r[-1][1] = [f"ks {i}.wav"] if i % 2 == 0 else [{"Sample": i + 1, "Volume": 10 + 7 * i}]
     hit_ix, hold_ix = list(range(n_hits)), list(range(n_hits, n_hits + n_holds))
     ties = on("ties", 0.2)
     if ties and n_hits >= 2:  # two hits at exactly the same time in the same lane
@@ -606,6 +617,18 @@ def gen_spec(rng, feature, lane=None):
         bpm_pool, mult_pool = BPM_EXTREME, MULT_EXTREME
     tps = [[["StartTime", _time(rng, tk)], ["Bpm", rng.choice(bpm_pool)]] for _ in range(n_tp)]
     svs = [[["StartTime", _time(rng, tk)], ["Multiplier", rng.choice(mult_pool)]] for _ in range(n_sv)]
+    if on("kind_order", 0.25):
+        timed = [r for r in objs if r[0][0] == "StartTime"]  # (objs are interleaved by now; records that lost their StartTime stay where they are)
+        kinds = {k: v for k, v in dict(hit=[r for r in timed if all(kv[0] != "EndTime" for kv in r)], hold=[r for r in timed if any(kv[0] == "EndTime" for kv in r)], tp=tps, sv=svs).items() if v}
+        if len(kinds) >= 2:
+            allt = [r[0][1] for v in kinds.values() for r in v]
+            r = rng.choice(kinds[rng.choice(sorted(kinds))])
+            step = rng.choice([1, 250, 1000] + ([0.5] if fractional else []))
+            new = rng.choice([min(allt) - step, min(allt), max(allt) + step, max(allt)])
+            for kv in r:
+                if kv[0] == "EndTime":
+                    kv[1] = new + (kv[1] - r[0][1])
+            r[0][1] = new
     if ties:  # two tempo changes / two SVs at exactly the same time with different values
         for recs, pool in ((tps, bpm_pool), (svs, mult_pool)):
             if recs:
@@ -642,7 +665,13 @@ def gen_spec(rng, feature, lane=None):
         return rng.choice("pds") if hostile else rng.choice("pd")
 
     top = []
+    d_texts, d_ints = rng.sample(D_TEXTS, len(TEXT_KEYS)), rng.sample([7, 33, 2001, 12345, 169955], len(INT_KEYS))
     for k in META_KEYS:
+        if distinct:
+            v = ("Keys7" if k == "Mode" else "t1 tag:2 三" if k == "Tags" else d_texts[TEXT_KEYS.index(k)] if k in TEXT_KEYS else d_ints[INT_KEYS.index(k)] if k in INT_KEYS
+                 else False if k in BOOL_KEYS else rng.choice([2.5, 0.75]) if k in NUM_KEYS else D_LISTS[k])
+            top.append([k, v, rng.choice("pd")])
+            continue
         if k == "Mode":
             v = rng.choice(["Keys4", "Keys7"])
         elif k == "Tags":
@@ -859,12 +888,15 @@ def qua_read_vs_denotation(rep):
                  "the ends of the value ranges as a feature of its own (times around +-2^31 and 2^32 ms, tempo 0.001 .. 1e6, multipliers +-1000 / 0.0001 / 0, 32-bit extremes in the integer keys, InitialScrollVelocity 0 / 100); "
                  f"strings from a pool of {len(HOSTILE)} YAML-hostile texts (incl. U+00A0 / U+3000 inside and at the ends, full-width punctuation, wave dash, '//', ',', '#', CR LF, YAML 1.1 number / date look-alikes) in plain/single/double quoting; "
                  f"40% of the documents in another text form ({', '.join(FORMS)}) and 40% through another entry point than read(str) ({', '.join(READ_VIAS)}; list inputs are read twice from the same list object, files through a str path and a Path)")
+    rep.bound += ("; (14) feature all_fields_distinct: every one of the 21 metadata keys present with a non-default value different from every sibling of its type (both booleans false, the three list keys non-empty and different), every object with key sounds of its own; "
+                  "(16) markers of the format (Keys4 / Keys7 / Keys8, HitObjects, 'StartTime: 5', [], {}, -1, 0 ...) as ordinary text values in the hostile pool; (17) feature kind_order: one record of one kind (hit, hold, timing point, SV) moved strictly before / exactly onto the earliest, "
+                  "or after / onto the latest record of ALL kinds; in-memory charts: 20% all fields distinct, 30% such a move (case['dims'])")
     rep.rule = ("a case is one document text + entry point; non-trivial when it has at least one object or timing record; each document is first read through the oracle and compared with the chart the generator meant (self-check); "
                 f"an omitted Multiplier must read as one constant out of {DEFAULT_MULTIPLIERS} (clause sv_default_multiplier), an omitted Bpm is not asserted")
     plan = [("lane", l) for l in range(1, 9)]
     singles = [f for f in FEATURES if f not in ("lane", "mixed")]
     per = max(3, (2 * N // 3) // len(singles))
-    plan += [(f, None) for f in singles for _ in range(per)]
+    plan += [(f, None) for _ in range(per) for f in singles]  # round-robin: a run cut short by the time budget still meets every feature
     plan += [("mixed", None)] * max(0, N - len(plan))
     feats, vias = {}, {}
     for f, lane in plan:
@@ -933,7 +965,27 @@ def gen_chart_case(rng, origin):
     if origin == "lists":
         meta.update(source=rng.choice(pool), description=rng.choice(pool), genre=rng.choice(pool), banner=rng.choice(pool), map_id=rng.choice([-1, 77]), isv=rng.choice([1.0, 2.5]),
                     scratch=rng.random() < 0.5, bpm_sv=rng.random() < 0.5, layers=rng.choice([[], [{"Name": "L: 1", "ColorRgb": "1,2,3"}]]))
+    dims = []
+    if rng.random() < 0.2:  # (14) every metadata field / key-sound list non-default and different from its siblings
+        texts = rng.sample(D_TEXTS, 10)
+        meta.update(title=texts[0], artist=texts[1], creator=texts[2], version=texts[3], audio=texts[4], background=texts[5], tags=["t1", "tag:2", "三"], preview=4321)
+        if origin == "lists":
+            meta.update(source=texts[6], description=texts[7], genre=texts[8], banner=texts[9], map_id=77, isv=2.5, scratch=False, bpm_sv=False, layers=[{"Name": "L: 1", "ColorRgb": "1,2,3"}])
+            for i, r in enumerate(hits + holds):
+                r[-1] = [f"ks {i}.wav"] if i % 2 == 0 else [{"Sample": i + 1, "Volume": 10 + 7 * i}]
+        dims.append("all_fields_distinct")
+    if rng.random() < 0.3:  # (17) which kind of row is the earliest / latest of the chart
+        kinds = {k: v for k, v in dict(hits=hits, holds=holds, bpms=bpms, svs=svs).items() if v}
+        if len(kinds) >= 2:
+            allt = [r[0] for v in kinds.values() for r in v]
+            k = rng.choice(sorted(kinds))
+            step = rng.choice([1, 250, 1000] + ([] if ints else [0.5]))
+            how = rng.choice(["first", "first_tied", "last", "last_tied"])
+            rng.choice(kinds[k])[0] = {"first": min(allt) - step, "first_tied": min(allt), "last": max(allt) + step, "last_tied": max(allt)}[how]
+            dims.append(f"{k}_{how}")
     case = dict(origin=origin, keys=keys, hits=hits, holds=holds, bpms=bpms, svs=svs, meta=meta)
+    if dims:
+        case["dims"] = dims
     if numeric != "py":
         case["numeric"] = numeric
     if rng.random() < 0.4:  # public list operations before writing: row labels permuted / reversed / offset / gappy, per list kind
@@ -1356,6 +1408,9 @@ def qua_write_vs_denotation(rep):
                  "an item appended to each list and the new lists assigned, four new lists assigned, bpm and multiplier *= 1.5, title / tags / preview time / scratch key / mode assigned), "
                  "native item lists in 1 of 5 charts with tempo 0.001 .. 1e6 and multipliers +-1000 / 0.0001, times beyond +-2^31 ms; "
                  f"30% read back through another entry point than read(str) (incl. a path that held another document before); metadata from the YAML-hostile pool) + fixtures under rsc/maps ({'first ' + str(lim) + ' objects of the smallest file' if lim else 'all files, whole charts'} per format)")
+    rep.bound += ("; (14) feature all_fields_distinct: every one of the 21 metadata keys present with a non-default value different from every sibling of its type (both booleans false, the three list keys non-empty and different), every object with key sounds of its own; "
+                  "(16) markers of the format (Keys4 / Keys7 / Keys8, HitObjects, 'StartTime: 5', [], {}, -1, 0 ...) as ordinary text values in the hostile pool; (17) feature kind_order: one record of one kind (hit, hold, timing point, SV) moved strictly before / exactly onto the earliest, "
+                  "or after / onto the latest record of ALL kinds; in-memory charts: 20% all fields distinct, 30% such a move (case['dims'])")
     rep.rule = ("a case is one source chart description (rebuilt through the real constructors / converters, then the case's list operations); the chart compared is the one handed to the writer, snapshot before the first write; after an edit, the chart computed from that snapshot and the DESCRIPTION of the edit (for rate(): the public attributes of the chart it returns) - "
                 "clauses <origin>.write_after_edit.*; an edit whose own step raises or does not do what its description says is counted, not judged; non-trivial when the written chart has at least one object")
     plan = []
@@ -1466,11 +1521,14 @@ def qua_write_after_read(rep):
     files = sorted(glob.glob(os.path.join(REPO, _FIXTURES["qua"])), key=os.path.getsize)[: rep.n(1, 9)]
     rep.bound = (f"{N} generated documents (same generator as qua_read_vs_denotation: every single feature x seeds + mixtures, 40% in another text form, 40% read through another entry point, 40% written through write_file) + {len(files)} .qua fixture(s) under rsc/maps/qua; "
                  "every chart is written twice and both documents are compared with the source text")
+    rep.bound += ("; (14) feature all_fields_distinct: every one of the 21 metadata keys present with a non-default value different from every sibling of its type (both booleans false, the three list keys non-empty and different), every object with key sounds of its own; "
+                  "(16) markers of the format (Keys4 / Keys7 / Keys8, HitObjects, 'StartTime: 5', [], {}, -1, 0 ...) as ordinary text values in the hostile pool; (17) feature kind_order: one record of one kind (hit, hold, timing point, SV) moved strictly before / exactly onto the earliest, "
+                  "or after / onto the latest record of ALL kinds; in-memory charts: 20% all fields distinct, 30% such a move (case['dims'])")
     rep.rule = ("a case is one document text + read / write entry points; non-trivial when it has at least one object or timing record; documents REAL read rejects are counted under read.accepts of qua_read_vs_denotation, not here; "
                 "keys outside the format that the source document carried itself may be written back or dropped, but never as a non-finite number")
     singles = [f for f in FEATURES if f not in ("lane", "mixed")]
     per = max(3, (2 * N // 3) // len(singles))
-    plan = [f for f in singles for _ in range(per)]
+    plan = [f for _ in range(per) for f in singles]  # round-robin: a run cut short by the time budget still meets every feature
     plan += ["mixed"] * max(0, N - len(plan))
     for f in files:
         if rep.out_of_time(40, 300):
